@@ -35,7 +35,7 @@ unset CARGO_TARGET_DIR
 cd /repo || exit 2
 if [ -n "$(git status --porcelain --untracked-files=no)" ]; then echo "/repo dirty; refusing"; exit 2; fi
 git apply "$PATCH" || exit 2
-trap 'git -C /repo checkout -- .' EXIT
+trap 'git -C /repo checkout -- . ; git -C /repo clean -qfd rlib' EXIT
 OUT="$(cd /verif && ./check "$PROP" quick 2>&1)"; RC=$?
 res "B1 ./check $PROP quick: exit $RC $(echo "$OUT" | grep -E 'signature|MACHINERY' | head -1 | cut -c1-220)"
 if [ $RC -eq 0 ] && [ $THOROUGH -eq 1 ]; then
